@@ -18,6 +18,9 @@ type Profile struct {
 	HeapCheck, Churn, NVisit, RefCheck, Stores              int
 	CloseAll, NoGet                                         bool
 	CloseSnapsOnReopen                                      bool     // after a failed Flush bytes beyond the last root are in use too
+	FlushBeforeReopen                                       bool     // re-opened trees then hold everything, unloaded
+	NoFinalDump                                             bool     // do not dump the open stores before the closing sequence
+	Cold                                                    int      // weight of the composite 'cold mutation under a snapshot' step (see the generator)
 	FlushExtra, EndExtra                                    []string // templates with %F = file id
 	KeyOnlyReads                                            bool     // C19: bracket key-only ops with rmark/kreads
 	Iter, SetRoot, SnapRevert, Write, Blocks                int
@@ -360,6 +363,13 @@ func (g *Gen) history() []string {
 					delete(g.stores, id)
 				}
 			}
+			if p.FlushBeforeReopen {
+				g.emit("flush %d", s.sid)
+				s.durable = map[string]bool{}
+				for n := range s.names {
+					s.durable[n] = true
+				}
+			}
 			if p.Drop > 0 && r.Intn(100) < p.Drop {
 				g.emit("drop %d", s.sid)
 			} else {
@@ -537,6 +547,98 @@ func (g *Gen) history() []string {
 			k := g.key()
 			g.emit("setroot %d %s %s %d %d", s.sid, hx([]byte(n)), hx(k), g.prio(n, k), r.Intn(4))
 		}},
+		{p.Cold, func() {
+			// cold mutation under a snapshot: a deeper tree is flushed and the store re-opened (every
+			// node unloaded), a snapshot is taken at once, existing keys are deleted / overwritten in
+			// the original before anything else has loaded the tree, and the snapshot then reads
+			// (without evicting) below the replaced nodes
+			s := g.pickStore(true)
+			if s == nil || s.mem || len(g.stores) > 4 {
+				return
+			}
+			nm := g.pickName(s, true)
+			hn := hx([]byte(nm))
+			n := 8 + r.Intn(24)
+			var keys [][]byte
+			for i := 0; i < n; i++ {
+				k := []byte(fmt.Sprintf("c%03d", r.Intn(400)))
+				keys = append(keys, k)
+				g.emit("set %d %s %s %s %d", s.sid, hn, hx(k), hx(g.val()), g.prio(nm, k))
+			}
+			g.emit("flush %d", s.sid)
+			s.durable = map[string]bool{}
+			for x := range s.names {
+				s.durable[x] = true
+			}
+			var snaps []int
+			for id, t := range g.stores {
+				if t.ro && t.fid == s.fid && !t.mem {
+					snaps = append(snaps, id)
+				}
+			}
+			sort.Ints(snaps)
+			for _, id := range snaps {
+				g.emit("close %d", id)
+				delete(g.stores, id)
+			}
+			g.emit("close %d", s.sid)
+			delete(g.stores, s.sid)
+			ns := &gstore{sid: g.nextSid, fid: s.fid, names: map[string]bool{}, durable: s.durable}
+			g.nextSid++
+			for x := range s.durable {
+				ns.names[x] = true
+			}
+			g.stores[ns.sid] = ns
+			g.emit("open %d %d", ns.sid, ns.fid)
+			sn := &gstore{sid: g.nextSid, fid: ns.fid, ro: true, names: map[string]bool{}, parent: ns.sid}
+			g.nextSid++
+			for x := range ns.names {
+				sn.names[x] = true
+			}
+			g.stores[sn.sid] = sn
+			g.emit("snap %d %d", ns.sid, sn.sid)
+			for i, m := 0, 1+r.Intn(3); i < m; i++ {
+				k := keys[r.Intn(len(keys))]
+				if r.Intn(3) == 0 {
+					g.emit("set %d %s %s %s %d", ns.sid, hn, hx(k), hx(g.val()), g.prio(nm, k))
+				} else {
+					g.emit("del %d %s %s", ns.sid, hn, hx(k))
+				}
+			}
+			for i, m := 0, 2+r.Intn(5); i < m; i++ {
+				switch r.Intn(6) {
+				case 0:
+					g.emit("min %d %s %d", sn.sid, hn, r.Intn(2))
+				case 1:
+					g.emit("max %d %s %d", sn.sid, hn, r.Intn(2))
+				default:
+					g.emit("geti %d %s %s %d", sn.sid, hn, hx(keys[r.Intn(len(keys))]), r.Intn(2))
+				}
+			}
+		}},
+		{p.SnapRead, func() {
+			// a read THROUGH a snapshot that does not evict what it loads (GetItem / Min / Max)
+			var ids []int
+			for id, t := range g.stores {
+				if t.ro {
+					ids = append(ids, id)
+				}
+			}
+			if len(ids) == 0 {
+				return
+			}
+			sort.Ints(ids)
+			t := g.stores[ids[r.Intn(len(ids))]]
+			hn := hx([]byte(g.pickName(t, true)))
+			switch r.Intn(5) {
+			case 0:
+				g.emit("min %d %s %d", t.sid, hn, r.Intn(2))
+			case 1:
+				g.emit("max %d %s %d", t.sid, hn, r.Intn(2))
+			default:
+				g.emit("geti %d %s %s %d", t.sid, hn, hx(g.key()), r.Intn(2))
+			}
+		}},
 		{p.SnapRevert, func() {
 			// FlushRevert THROUGH a snapshot: the snapshot goes back one flush, the file and the
 			// original are untouched
@@ -653,6 +755,11 @@ func (g *Gen) history() []string {
 	}
 	sort.Ints(ids)
 	for _, id := range ids {
+		if p.NoFinalDump {
+			// a dump is a visit, and a visit evicts (and releases) every item it leaves: the last
+			// access to each item stays whatever the history made it
+			break
+		}
 		g.emit("dump %d", id)
 	}
 	if p.KeyOnlyReads {
